@@ -196,19 +196,31 @@ Definition owned_by (l : option nat) (t : nat) : bool :=
 Definition setp (ph : nat -> phase) (t : nat) (p : phase) : nat -> phase :=
   fun u => if Nat.eqb u t then p else ph u.
 
-Definition lstep_gen (early : bool) (st : lstate) (t : nat) (a : action) : lstate :=
+(* [pass t] is the pass phrase under which work package t takes the lock (lockPass = str(uuid.uuid1()), made anew in every
+   work_package call): the lock file stores a pass phrase, and a contender whose pass phrase equals the stored one is
+   granted the lock at once (pylocker code 1, "already set") *)
+Definition lstep_pass (pass : nat -> nat) (early : bool) (st : lstate) (t : nat) (a : action) : lstate :=
   match phases st t, a with
-  | PIdle, Step => if free_for (lock st) t then LS (lock st) (setp (phases st) t PChecked) (file st) else st
+  | PIdle, Step => if free_for (lock st) (pass t) then LS (lock st) (setp (phases st) t PChecked) (file st) else st
   | PIdle, Timeout => LS (lock st) (setp (phases st) t PDoneLost) (file st)
   | PIdle, Takeover => LS (lock st) (setp (phases st) t PChecked) (file st)
-  | PChecked, Step => LS (Some t) (setp (phases st) t PWritten) (file st)
-  | PWritten, Step => if owned_by (lock st) t then LS (lock st) (setp (phases st) t PHolding) (file st)
+  | PChecked, Step => LS (Some (pass t)) (setp (phases st) t PWritten) (file st)
+  | PWritten, Step => if owned_by (lock st) (pass t) then LS (lock st) (setp (phases st) t PHolding) (file st)
                       else LS (lock st) (setp (phases st) t PIdle) (file st)
-  | PHolding, Step => if owned_by (lock st) t then LS None (setp (phases st) t PDoneOk) (file st ++ [t])
+  | PHolding, Step => if owned_by (lock st) (pass t) then LS None (setp (phases st) t PDoneOk) (file st ++ [t])
                       else if early then LS (lock st) (setp (phases st) t PDoneOk) (file st ++ [t])
                       else LS (lock st) (setp (phases st) t PDoneLost) (file st)
   | _, _ => st
   end.
+
+Fixpoint lrun_pass (pass : nat -> nat) (early : bool) (st : lstate) (sched : list (nat * action)) : lstate :=
+  match sched with
+  | [] => st
+  | (t, a) :: r => lrun_pass pass early (lstep_pass pass early st t a) r
+  end.
+
+(* the code: a fresh pass phrase per work package, i.e. pairwise distinct ones *)
+Definition lstep_gen (early : bool) : lstate -> nat -> action -> lstate := lstep_pass (fun t => t) early.
 
 Fixpoint lrun_gen (early : bool) (st : lstate) (sched : list (nat * action)) : lstate :=
   match sched with
@@ -252,3 +264,8 @@ Definition stale_serial_schedule (n : nat) : list (nat * action) :=
   | O => []
   | S m => (0, Takeover) :: repeat (0, Step) 3 ++ flat_map (fun t => repeat (t, Step) 4) (seq 1 m)
   end%nat.
+
+(* work package 1 arrives while work package 0 is inside its critical section (lock file carries 0's pass phrase) *)
+Definition overlap_schedule : list (nat * action) :=
+  [(0, Step); (0, Step); (0, Step);      (* 0 checks, writes, verifies: holds *)
+   (1, Step); (1, Step); (1, Step)]%nat. (* 1 tries to check / write / verify *)
